@@ -593,6 +593,7 @@ func (e c19Expr) inDomain() bool {
 // generators
 
 var c19Keys = []string{"source", "gene", "CDS", "exon"}
+
 // names with capitals too: INSDC has EC_number, PCR_primers, ncRNA_class … (seeded change W8-2: the clause name
 // lower-cased before the look-up)
 var c19Names = []string{"gene", "note", "product", "pseudo", "EC_number", "ncRNA_class"}
